@@ -134,7 +134,7 @@ fn gen_imports_run(tape: &mut Tape, idx: usize) -> (Value, Vec<String>, Vec<Stri
 
 /// Result of one host-driven run, rendered without order ids (ids legitimately differ between a used and
 /// a fresh interpreter).
-fn run_hosted(interp: &mut Interpreter, run: &Value, dead_ids: &mut Vec<tsrun::OrderId>) -> (String, bool) {
+fn run_hosted(interp: &mut Interpreter, run: &Value, dead_ids: &mut Vec<tsrun::OrderId>, late: &[tsrun::OrderId]) -> (String, bool) {
     let src = run["src"].as_str().unwrap_or("").to_string();
     let opts = RunOpts { module_path: run["path"].as_str().map(|s| s.to_string()), step_budget: BUDGET, vm_limit_per_step: 20_000_000, ..Default::default() };
     let answers = run["answers"].as_u64().unwrap_or(u64::MAX);
@@ -142,16 +142,30 @@ fn run_hosted(interp: &mut Interpreter, run: &Value, dead_ids: &mut Vec<tsrun::O
     let mut answered = 0u64;
     let mut kinds: Vec<String> = vec![];
     let mut abandoned_parked = false;
+    let mut late_sent = false;
     let mut outstanding: Vec<tsrun::OrderId> = vec![];
     let (end, _err, _steps, _trace) = drive(interp, &src, &opts, &mut |it, r| match r {
         StepResult::Suspended { pending, cancelled } => {
-            kinds.push(format!("suspended:{}+{}c:{}", pending.len(), cancelled.len(), pending.iter().map(|o| render_value(&o.payload)).collect::<Vec<_>>().join(";")));
+            // an empty Suspended (nothing new for the host) is an artefact of the host's own timing: not recorded
+            if !(pending.is_empty() && cancelled.is_empty()) {
+                kinds.push(format!("suspended:{}+{}c:{}", pending.len(), cancelled.len(), pending.iter().map(|o| render_value(&o.payload)).collect::<Vec<_>>().join(";")));
+            }
             for o in pending {
                 outstanding.push(o.id);
             }
             if answered >= answers || outstanding.is_empty() {
                 abandoned_parked = true;
                 return HostAction::Stop;
+            }
+            if !late_sent {
+                // answers to orders of ABANDONED earlier runs arrive now, while this run is parked on its own order
+                late_sent = true;
+                let stale: Vec<OrderResponse> = late.iter().map(|id| OrderResponse { id: *id, result: Ok(RuntimeValue::unguarded(JsValue::Number(99.0))) }).collect();
+                if !stale.is_empty() {
+                    // ... and arrive alone: the run's own order is answered one round later
+                    it.fulfill_orders(stale);
+                    return HostAction::Resume;
+                }
             }
             let rs: Vec<OrderResponse> = outstanding.drain(..).map(|id| OrderResponse { id, result: Ok(RuntimeValue::unguarded(JsValue::Number(7.0))) }).collect();
             answered += rs.len() as u64;
@@ -318,7 +332,7 @@ impl Property for C11Prop {
                 let hosted = run["kind"].as_str().is_some();
                 let (end, steps) = if hosted {
                     let before = dead_ids.len();
-                    let (end, parked) = run_hosted(&mut s.interp, run, &mut dead_ids);
+                    let (end, parked) = run_hosted(&mut s.interp, run, &mut dead_ids, &[]);
                     if parked {
                         deep = true;
                         if run["late_fulfil"].as_bool() == Some(true) {
@@ -394,13 +408,9 @@ impl Property for C11Prop {
                 let mut out = vec![];
                 for (k, o) in obs2.iter().enumerate() {
                     sess.log.borrow_mut().clear();
-                    if k == 2 && !late.is_empty() {
-                        // delivered before the observer starts AND (again, harmlessly) nothing else: the dead run is gone
-                        let rs: Vec<OrderResponse> = late.iter().map(|id| OrderResponse { id: *id, result: Ok(RuntimeValue::unguarded(JsValue::Number(99.0))) }).collect();
-                        sess.interp.fulfill_orders(rs);
-                    }
                     let mut sink = vec![];
-                    let (end, _) = run_hosted(&mut sess.interp, o, &mut sink);
+                    // the order observer receives the late answers while it is parked on its first order
+                    let (end, _) = run_hosted(&mut sess.interp, o, &mut sink, if k == 2 { late } else { &[] });
                     let q = sess.interp.verif_quiescence();
                     out.push(format!("{}|{}|exports:{}|call_depth={} env_is_global={} env_guards={} call_stack={} active_vm={} suspended={} waiters={}", end, sess.log.borrow().join("\u{1}"), exports_of(&sess.interp), sess.interp.call_depth(), q.env_is_global, q.env_guards, q.call_stack, q.active_vm, q.suspended_for_order, q.wait_contexts));
                 }
